@@ -75,7 +75,7 @@ impl TInst {
             SZ_GRID => (3, 2, 2, 1),
             SZ_TINY => (rng.range(3, 6) as usize, rng.range(2, 4) as usize, rng.range(2, 3) as usize, 4),
             SZ_SMALL => (rng.range(5, 9) as usize, rng.range(2, 5) as usize, rng.range(2, 3) as usize, 6),
-            SZ_LARGE => (rng.range(20, 32) as usize, rng.range(4, 8) as usize, rng.range(2, 3) as usize, 9),
+            SZ_LARGE => (rng.range(18, 28) as usize, rng.range(10, 15) as usize, rng.range(2, 3) as usize, 9),
             _ => (rng.range(8, 12) as usize, rng.range(3, 6) as usize, rng.range(2, 4) as usize, 9),
         };
         let (s, c) = if reconv { (rng.range(2, 3) as usize, 2) } else { (s, c) };
@@ -235,7 +235,12 @@ impl Relaxation for TRelax {
         match self.0.variant.rub {
             RubKind::None => isize::MAX,
             RubKind::Exact => self.0.score(st).unwrap_or(NEG),
-            RubKind::Slack(seed) => self.0.score(st).map(|x| x + (hash2(st, &seed) % 4) as isize).unwrap_or(NEG),
+            RubKind::Slack(seed) => if seed % 2 == 1 {
+                // loose admissible bound: the best value to go of *any* base state (at this depth, or at any depth when unknown)
+                let best = |l: usize| self.0.g[l].iter().flatten().copied().max();
+                let b = if self.0.depth_in_state { best(st.depth as usize) } else { (0..=self.0.l).filter_map(best).max() };
+                b.map(|x| x + st.bonus).unwrap_or(NEG)
+            } else { self.0.score(st).map(|x| x + (hash2(st, &seed) % 4) as isize).unwrap_or(NEG) },
         }
     }
 }
